@@ -293,3 +293,9 @@ func Drain(q interface{}) [][]byte {
 	}
 	return out
 }
+
+// And, Or, Implies build a condition without forking the path under the engine
+// (Go's && and || compile to branches); natively they are the plain operators.
+func And(a, b bool) bool     { return a && b }
+func Or(a, b bool) bool      { return a || b }
+func Implies(a, b bool) bool { return !a || b }
